@@ -13,6 +13,7 @@ pub mod c07;
 pub mod c08;
 pub mod c09;
 pub mod c10;
+pub mod c11;
 pub mod c20;
 
 use crate::core::Stats;
@@ -37,6 +38,7 @@ pub fn monitors() -> Vec<Monitor> {
         Monitor { id: "C08", case: c08::case, exhaustive: None },
         Monitor { id: "C09", case: c09::case, exhaustive: None },
         Monitor { id: "C10", case: c10::case, exhaustive: None },
+        Monitor { id: "C11", case: c11::case, exhaustive: None },
         Monitor { id: "C20", case: c20::case, exhaustive: Some(c20::exhaustive) },
     ]
 }
